@@ -2,6 +2,7 @@
 // must panic — the complement of the precondition `x < width && y < height` under which Verus proves
 // the pixel operations. "Must panic" is checked as "the call never returns": the cover point placed
 // after the call must be unreachable, and the only failing checks are panics.
+#![allow(dead_code, unused_imports, unused_variables, unused_results)]
 use super::*;
 
 const N: usize = 512; // page images up to 512 bytes: covers all 11 real sign sizes (largest 336)
